@@ -586,8 +586,8 @@ class VM:
         elif op == OpCode.MOD:
             b = self.stack.pop()
             a = self.stack.pop()
+            a_num = self._to_number(a)  # left operand first
             b_num = self._to_number(b)
-            a_num = self._to_number(a)
             if (
                 b_num == 0
                 or math.isnan(a_num)
